@@ -613,14 +613,44 @@ func ruleGetGuards(c *core.Ctx) {
 				continue
 			}
 			o.At(fn.Site(rs, "returns parsed object"))
-			ok := g.GuardedBy(r, func(a core.Atom) bool {
+			hdr := func(a core.Atom) bool {
 				cmp, ok := a.AsCmp()
 				if !ok || cmp.Op != token.EQL {
 					return false
 				}
 				lt, rt := info.TypeOf(cmp.L), info.TypeOf(cmp.R)
 				return lt != nil && rt != nil && core.IsNamed(lt, "pdf", "Reference") && core.IsNamed(rt, "pdf", "Reference")
-			})
+			}
+			ok := g.GuardedBy(r, hdr)
+			if !ok {
+				// the object may reach the return through a copy made earlier
+				// (a helper folded in): the value parsed by ReadIndirectObject
+				// must have been copied only behind the header comparison
+				ok = true
+				parsed := false
+				for _, c1 := range valueCases(g, r, rs.Results[0], 1) {
+					fromRIO := false
+					if c1.V == rio[0].V {
+						fromRIO = true
+					} else if _, isID := ast.Unparen(c1.Expr).(*ast.Ident); isID {
+						for _, c2 := range valueCases(g, c1.V, c1.Expr, 1) {
+							if c2.V == rio[0].V {
+								fromRIO = true
+							}
+						}
+					}
+					if !fromRIO {
+						continue
+					}
+					parsed = true
+					if !g.GuardedBy(c1.V, hdr) {
+						ok = false
+					}
+				}
+				if !parsed {
+					ok = false
+				}
+			}
 			if !ok {
 				o.Fail("object is returned without comparing its header with the reference")
 			}
